@@ -2,11 +2,11 @@ module verif/engine
 
 go 1.23.0
 
-require github.com/jeroenrinzema/psql-wire v0.0.0
-
 require (
-	github.com/jackc/pgx/v5 v5.4.3 // indirect
-	github.com/lib/pq v1.10.9 // indirect
+	github.com/jeroenrinzema/psql-wire v0.0.0
+	github.com/lib/pq v1.10.9
 )
+
+require github.com/jackc/pgx/v5 v5.4.3 // indirect
 
 replace github.com/jeroenrinzema/psql-wire => /repo
